@@ -45,7 +45,10 @@ _name = st.one_of(_name_ascii, st.sampled_from(["élan", "naïve", "名前", "_x
 _xml_char = st.characters(blacklist_categories=("Cs", "Cc"), blacklist_characters="￾￿")
 _special = st.sampled_from(["<", ">", "&", "\"", "'", "]]>", " ", "\t", "\n", "\xa0", "é", "\U0001F600", "&amp", "lt;", "a",
                             "<para>", "</para>", "&lt;", "&gt;", "&amp;", "--", "<!--", "?>", "{}", "x y", "  "])
-_text = st.lists(st.one_of(_special, _special, _xml_char.map(str)), max_size=7).map("".join)
+_text = st.one_of(st.lists(st.one_of(_special, _special, _xml_char.map(str)), max_size=7).map("".join),
+                  st.lists(st.one_of(_special, _special, _xml_char.map(str)), max_size=7).map("".join),
+                  # long values with many markup characters (an exporter that escapes only the first few)
+                  st.lists(st.sampled_from(["<", "&", ">", "a<b", " && ", "x", " "]), min_size=10, max_size=40).map("".join))
 # attribute values: tab / newline / CR are representable as character references (an exporter has to write them so)
 _attr_text = st.one_of(_text, _text, st.lists(st.sampled_from(["a", " ", "\t", "\n", "\r", "\r\n", "\"", "&", "é"]), min_size=1, max_size=5).map("".join))
 
